@@ -31,15 +31,12 @@ MCDevs7 == {THM, TH2, TRV, TR0, BDR, BD2, DHW, OTB, C1}
 MCDevs2 == {THM, TRV}
 MCPair4 == {THM, TRV, BDR, C1}
 MCDevsTC == {THM, TRV}
-MCDevsTC4 == {THM, TRV, BDR, DHW}
-MCZones1 == {"00"}
+MCDevsTC3 == {THM, TRV, BDR}
 
 \* devices the application asks to fake (thermostats and DHW sensors can be; for a TRV the call raises)
-MCFake0 == {}
 MCFake1 == {THM}
 MCFake3 == {THM, TH2, DHW}
 MCFakeTC == {THM, TRV}
-MCFakeTC4 == {THM, TRV, DHW}
 
 \* the state without the history: exhaustive runs explore the graph space, not the history space
 GraphView == <<zones, cls, sen, acts, dhw, app, par, ctl, rep>>
